@@ -29,7 +29,7 @@ type casScn struct {
 	WantCar string   `json:"wantcar"`
 }
 
-var casSel = []string{"*", "font", ".c", "font.c", "#t", "#t.c", ":is(font, #t)", ":not(.zz)"}
+var casSel = []string{"*", "font", ".c", "font.c", "#t", "#t.c", ":is(font, #t)", ":not(.zz)", "font, #t", "#zz, .c"}
 
 func casColor(v int) string { return fmt.Sprintf("rgb(%d, 7, 9)", v) }
 
@@ -76,6 +76,21 @@ func casMaterialise(s *casScn) (htmlText string, o *drv.Opts) {
 			head.WriteString("<style>@media screen{" + rule + "}</style>\n")
 		case "nested":
 			head.WriteString("<style>" + sel + "{color:" + casColor(100+j) + "; &{" + casDecl(j, oc.Imp) + "}}</style>\n")
+		case "burst15", "burst20", "burst33":
+			// many rules of the same selector in one sheet, interleaved with universal rules of another property
+			n := map[string]int{"burst15": 15, "burst20": 20, "burst33": 33}[oc.Car]
+			var b strings.Builder
+			for k := 1; k <= n; k++ {
+				v := 200 + k
+				if k == n {
+					v = j
+				}
+				b.WriteString(sel + "{" + casDecl(v, oc.Imp) + "}\n")
+				if k%5 == 0 {
+					b.WriteString(fmt.Sprintf("*{margin-left:%dpx}\n", k))
+				}
+			}
+			head.WriteString("<style>" + b.String() + "</style>\n")
 		case "nomatch":
 			head.WriteString("<style>#nomatch{" + casDecl(j, oc.Imp) + "}</style>\n")
 		case "attr":
@@ -92,7 +107,9 @@ func casMaterialise(s *casScn) (htmlText string, o *drv.Opts) {
 func casKey(s *casScn, got int) string {
 	// the class of a disagreement: which carrier should have won and which one did
 	gotCar := "inherited"
-	if got >= 100 && got-100 <= len(s.Occs) {
+	if got >= 200 {
+		gotCar = "earlier-rule-of-the-same-sheet"
+	} else if got >= 100 && got-100 <= len(s.Occs) {
 		gotCar = "parent-own-declaration"
 	} else if got >= 1 && got <= len(s.Occs) {
 		gotCar = s.Occs[got-1].Car
